@@ -733,7 +733,7 @@ fn gen_limit(rng: &mut Rng) -> String {
 }
 
 /// One option set of a smoke run.  `first` = the options of `init` (later ones go through `apply_config`).
-fn gen_smoke_opts(thorough: bool, first: bool, rng: &mut Rng, stats: &mut Stats) -> String {
+fn gen_smoke_opts(heavy_ok: bool, first: bool, rng: &mut Rng, stats: &mut Stats) -> String {
     let mut v: Vec<String> = Vec::new();
     let v1 = first && rng.chance(1, 6);
     if v1 {
@@ -816,8 +816,9 @@ fn gen_smoke_opts(thorough: bool, first: bool, rng: &mut Rng, stats: &mut Stats)
         }
     } else if rng.chance(1, 2) {
         // levels >= 19 cost seconds and gigabytes per blob: only in the thorough tier, only with the default chunker
-        let heavy = thorough && rng.chance(1, 30) && !v.iter().any(|x| x.starts_with("cs=") || x.starts_with("ck=") || x.starts_with("cm"));
-        v.push(format!("co={}", if heavy { *rng.pick(&[19i64, 22]) } else { *rng.pick(&[-131_072i64, -131_071, -100, -7, -1, 0, 1, 3, 9, 18]) }));
+        // (the same holds, less dramatically, for levels 10..18 on thousands of tiny chunks)
+        let heavy = heavy_ok && rng.chance(1, 30) && !v.iter().any(|x| x.starts_with("cs=") || x.starts_with("ck=") || x.starts_with("cm"));
+        v.push(format!("co={}", if heavy { *rng.pick(&[18i64, 19, 22]) } else { *rng.pick(&[-131_072i64, -131_071, -100, -7, -1, 0, 1, 3, 9]) }));
     }
     for k in ["ts", "ds"] {
         if rng.chance(1, 2) {
@@ -851,10 +852,11 @@ fn gen_smoke_opts(thorough: bool, first: bool, rng: &mut Rng, stats: &mut Stats)
 
 /// init options followed (one run in three) by 1..3 configuration changes
 fn gen_smoke_steps(thorough: bool, rng: &mut Rng, stats: &mut Stats) -> String {
-    let mut steps = vec![gen_smoke_opts(thorough, true, rng, stats)];
-    if rng.chance(1, 3) {
+    let multi = rng.chance(1, 3);
+    let mut steps = vec![gen_smoke_opts(thorough && !multi, true, rng, stats)];
+    if multi {
         for _ in 0..rng.range(1, 3) {
-            steps.push(gen_smoke_opts(thorough, false, rng, stats));
+            steps.push(gen_smoke_opts(false, false, rng, stats));
         }
         stats.hit("smoke.with-config-changes");
     }
